@@ -210,3 +210,175 @@ Proof.
     match goal with |- ?f ?x = _ => change x with (le_bytes 4 l ++ le_bytes 4 r ++ write_node v d ++ rest) end.
     rd_le 4%nat. rd_le 4%nat. unfold rbind. rewrite node_roundtrip by assumption. reflexivity.
 Qed.
+
+(** * Canonicity of whole records and totality of the parsers *)
+
+Lemma rbind_inv {A B} (r : reader A) (f : A -> reader B) b y rest :
+  rbind r f b = Ok (y, rest) -> exists a r1, r b = Ok (a, r1) /\ f a r1 = Ok (y, rest).
+Proof. unfold rbind. destruct (r b) as [[a r1]| |]; try discriminate. intros E. exists a, r1. auto. Qed.
+
+Lemma read_bytes_inv' n b x rest : bytesP b -> read_bytes n b = Ok (x, rest) ->
+  b = x ++ rest /\ length x = n /\ bytesP x /\ bytesP rest.
+Proof.
+  intros BP E. destruct (read_bytes_inv n b x rest E) as [-> L].
+  apply Forall_app in BP. destruct BP. auto.
+Qed.
+
+Lemma byte_list_of n x : length x = n -> bytesP x -> byte_list n x.
+Proof. unfold byte_list. auto. Qed.
+
+Ltac inv_bytes E BP x r L Bx :=
+  apply rbind_inv in E; destruct E as (x & r & E0 & E);
+  let BP' := fresh "BP" in
+  destruct (read_bytes_inv' _ _ _ _ BP E0) as (-> & L & Bx & BP'); clear E0; clear BP; rename BP' into BP.
+Ltac inv_le E BP x r Bx :=
+  apply rbind_inv in E; destruct E as (x & r & E0 & E);
+  let BP' := fresh "BP" in
+  destruct (read_le_inv _ _ _ _ BP E0) as (-> & Bx & BP'); clear E0; clear BP; rename BP' into BP.
+Ltac inv_cs E BP x r Bx :=
+  apply rbind_inv in E; destruct E as (x & r & E0 & E);
+  let BP' := fresh "BP" in
+  destruct (cs_canonical _ _ _ BP E0) as (-> & Bx & BP'); clear E0; clear BP; rename BP' into BP.
+
+Lemma v1_canonical br b d rest : 0 <= br <= u32_max -> bytesP b ->
+  read_v1 br b = Ok (d, rest) ->
+  b = write_v1 d ++ rest /\ wf_data V1 d /\ d_branch d = br /\
+  height_span (d_sh d) (d_eh d) <> None /\ bytesP rest.
+Proof.
+  intros Hbr BP E. unfold read_v1 in E.
+  inv_bytes E BP c r0 Lc Bc. inv_le E BP st r1 Bst. inv_le E BP et r2 Bet. inv_le E BP sta r3 Bsta.
+  inv_le E BP eta r4 Beta. inv_bytes E BP ss r5 Lss Bss. inv_bytes E BP es r6 Les Bes.
+  inv_le E BP w r7 Bw. inv_cs E BP sh r8 Bsh. inv_cs E BP eh r9 Beh.
+  destruct (height_span sh eh) eqn:HS; [|discriminate].
+  inv_cs E BP stx r10 Bstx. unfold rret in E. inversion E; subst; clear E.
+  change (256 ^ Z.of_nat 4) with (u32_max + 1) in *. rewrite pow256_32 in Bw.
+  split.
+  { unfold write_v1. cbn [d_commit d_stime d_etime d_starget d_etarget d_ssap d_esap d_work d_sh d_eh d_saptx].
+    rewrite <- !app_assoc. reflexivity. }
+  split.
+  { unfold wf_data, opt_bytes, opt_u64, byte_list, bytesP in *. cbn -[u256_max u64_max u32_max]. repeat split; auto; try lia. }
+  split; [reflexivity|]. split; [cbn [d_sh d_eh]; congruence|exact BP].
+Qed.
+
+Lemma v2_canonical br b d rest : 0 <= br <= u32_max -> bytesP b ->
+  read_v2 br b = Ok (d, rest) ->
+  b = (write_v1 d ++ write_v2ext d) ++ rest /\ wf_data V2 d /\ d_branch d = br /\
+  height_span (d_sh d) (d_eh d) <> None /\ bytesP rest.
+Proof.
+  intros Hbr BP E. unfold read_v2 in E.
+  apply rbind_inv in E. destruct E as (d1 & r0 & E0 & E).
+  destruct (v1_canonical br b d1 r0 Hbr BP E0) as (-> & WF & BR & HS & BP1). clear E0 BP. rename BP1 into BP.
+  inv_bytes E BP so r1 Lso Bso. inv_bytes E BP eo r2 Leo Beo. inv_cs E BP otx r3 Botx.
+  unfold rret in E. inversion E; subst; clear E.
+  split.
+  { unfold write_v2ext, write_v1. cbn [d_commit d_stime d_etime d_starget d_etarget d_ssap d_esap d_work d_sh d_eh d_saptx d_sorch d_eorch d_orchtx].
+    rewrite <- !app_assoc. reflexivity. }
+  split.
+  { unfold wf_data, opt_bytes, opt_u64, byte_list, bytesP in *. cbn -[u256_max u64_max u32_max] in *.
+    destruct WF as (? & ? & ? & ? & ? & ? & ? & ? & ? & ? & ? & ? & _). repeat split; auto; try lia; tauto. }
+  split; [reflexivity|]. split; [exact HS|exact BP].
+Qed.
+
+Lemma v3_canonical br b d rest : 0 <= br <= u32_max -> bytesP b ->
+  read_v3 br b = Ok (d, rest) ->
+  b = (write_v1 d ++ write_v2ext d ++ write_v3ext d) ++ rest /\ wf_data V3 d /\ d_branch d = br /\
+  height_span (d_sh d) (d_eh d) <> None /\ bytesP rest.
+Proof.
+  intros Hbr BP E. unfold read_v3 in E.
+  apply rbind_inv in E. destruct E as (d2 & r0 & E0 & E).
+  destruct (v2_canonical br b d2 r0 Hbr BP E0) as (-> & WF & BR & HS & BP1). clear E0 BP. rename BP1 into BP.
+  inv_bytes E BP si r1 Lsi Bsi. inv_bytes E BP ei r2 Lei Bei. inv_cs E BP itx r3 Bitx.
+  unfold rret in E. inversion E; subst; clear E.
+  split.
+  { unfold write_v3ext, write_v2ext, write_v1. cbn [d_commit d_stime d_etime d_starget d_etarget d_ssap d_esap d_work d_sh d_eh d_saptx d_sorch d_eorch d_orchtx d_siron d_eiron d_irontx].
+    rewrite <- !app_assoc. reflexivity. }
+  split.
+  { unfold wf_data, opt_bytes, opt_u64, byte_list, bytesP in *. cbn -[u256_max u64_max u32_max] in *.
+    destruct WF as (? & ? & ? & ? & ? & ? & ? & ? & ? & ? & ? & ? & ? & ? & ? & _). repeat split; auto; try lia; tauto. }
+  split; [reflexivity|]. split; [exact HS|exact BP].
+Qed.
+
+(** Whatever a node parser accepts is exactly the serialisation of the record it returns
+    (followed by the unread rest); the record is well-typed and has an ascending height range. *)
+Theorem node_canonical v br b d rest : 0 <= br <= u32_max -> bytesP b ->
+  read_node v br b = Ok (d, rest) ->
+  b = write_node v d ++ rest /\ wf_data v d /\ d_branch d = br /\
+  height_span (d_sh d) (d_eh d) <> None /\ bytesP rest.
+Proof.
+  destruct v; cbn [read_node write_node].
+  - apply v1_canonical.
+  - apply v2_canonical.
+  - apply v3_canonical.
+Qed.
+
+Theorem entry_canonical v br b e rest : 0 <= br <= u32_max -> bytesP b ->
+  read_entry v br b = Ok (e, rest) ->
+  exists w, write_entry v e = Ok w /\ b = w ++ rest /\ wf_data v (e_data e) /\ bytesP rest.
+Proof.
+  intros Hbr BP E. unfold read_entry in E.
+  inv_le E BP k r0 Bk.
+  destruct (k =? 0) eqn:K0.
+  - inv_le E BP l r1 Bl. inv_le E BP r r2 Br.
+    apply rbind_inv in E. destruct E as (d & r3 & E0 & E).
+    destruct (node_canonical v br _ d r3 Hbr BP E0) as (-> & WF & _ & _ & BP1).
+    unfold rret in E. inversion E; subst; clear E.
+    eexists. split; [reflexivity|]. assert (k = 0) by lia. subst k.
+    split; [cbn [e_data]; change (le_bytes 1 0) with [0]; cbn [app]; rewrite <- !app_assoc; reflexivity|]. split; [exact WF|exact BP1].
+  - destruct (k =? 1) eqn:K1; [|discriminate].
+    apply rbind_inv in E. destruct E as (d & r3 & E0 & E).
+    destruct (node_canonical v br _ d r3 Hbr BP E0) as (-> & WF & _ & _ & BP1).
+    unfold rret in E. inversion E; subst; clear E.
+    eexists. split; [reflexivity|]. assert (k = 1) by lia. subst k.
+    split; [reflexivity|]. split; [exact WF|exact BP1].
+Qed.
+
+(** The parsers are rtotal: no input makes them panic. *)
+Definition rtotal {A} (r : reader A) : Prop := forall b, r b <> Panic.
+
+Lemma rbind_total {A B} (r : reader A) (f : A -> reader B) :
+  rtotal r -> (forall a, rtotal (f a)) -> rtotal (rbind r f).
+Proof. intros Tr Tf b. unfold rbind. specialize (Tr b). destruct (r b) as [[a r1]| |]; [apply Tf|discriminate|congruence]. Qed.
+Lemma rret_total {A} (a : A) : rtotal (rret a).
+Proof. intros b. discriminate. Qed.
+Lemma rfail_total {A} e : rtotal (@rfail A e).
+Proof. intros b. discriminate. Qed.
+Lemma read_bytes_total n : rtotal (read_bytes n).
+Proof. intros b. unfold read_bytes. destruct (n <=? length b)%nat; discriminate. Qed.
+Lemma read_le_total n : rtotal (read_le n).
+Proof. apply rbind_total; [apply read_bytes_total|intros; apply rret_total]. Qed.
+Lemma read_cs_total : rtotal read_cs.
+Proof.
+  apply rbind_total; [apply read_le_total|]. intros flag.
+  destruct (flag <? 253); [apply rret_total|].
+  destruct (flag =? 253); [|destruct (flag =? 254)];
+    (apply rbind_total; [apply read_le_total|]; intros n;
+     match goal with |- rtotal (if ?c then _ else _) => destruct c end; [apply rfail_total|apply rret_total]).
+Qed.
+
+Ltac tot := repeat first
+  [ apply rret_total | apply rfail_total | apply read_bytes_total | apply read_le_total | apply read_cs_total
+  | (apply rbind_total; [|intros ?]) ].
+
+Lemma read_v1_total br : rtotal (read_v1 br).
+Proof.
+  unfold read_v1. tot.
+  match goal with |- rtotal (match ?x with _ => _ end) => destruct x end; tot.
+Qed.
+Lemma read_v2_total br : rtotal (read_v2 br).
+Proof. unfold read_v2. apply rbind_total; [apply read_v1_total|intros ?]. tot. Qed.
+Lemma read_v3_total br : rtotal (read_v3 br).
+Proof. unfold read_v3. apply rbind_total; [apply read_v2_total|intros ?]. tot. Qed.
+
+Theorem read_node_total v br b : read_node v br b <> Panic.
+Proof. destruct v; [apply read_v1_total|apply read_v2_total|apply read_v3_total]. Qed.
+
+Theorem read_entry_total v br b : read_entry v br b <> Panic.
+Proof.
+  revert b. change (rtotal (read_entry v br)). unfold read_entry.
+  apply rbind_total; [apply read_le_total|intros k].
+  destruct (k =? 0).
+  - apply rbind_total; [apply read_le_total|intros ?]. apply rbind_total; [apply read_le_total|intros ?].
+    apply rbind_total; [intros b; apply read_node_total|intros ?]. apply rret_total.
+  - destruct (k =? 1); [|apply rfail_total].
+    apply rbind_total; [intros b; apply read_node_total|intros ?]. apply rret_total.
+Qed.
